@@ -160,11 +160,13 @@ def run(ctx):
     if ctx.replay:
         _rp = json.load(open(ctx.replay))
         replay_kind = (_rp.get("replay", _rp) or {}).get("kind")
+        if replay_kind is None:
+            replay_kind = "obligations"   # an obligation-unchecked / coqchk replay: re-check the proofs only
 
     def _harness():
         hb_, hlog_ = ctx.build_harness("c08")
         hres["hb"], hres["hlog"] = hb_, hlog_
-        if hb_ is None or replay_kind == "race":
+        if hb_ is None or replay_kind in ("race", "obligations"):
             return
         args = [hb_, "-seed", str(ctx.seed), "-tier", ctx.tier, "-out", ctx.work]
         if ctx.replay:
@@ -242,7 +244,7 @@ def run(ctx):
     branches = collections.Counter()
     if hb is None:
         ob_failed.append("harness does not build against the source tree: " + hlog[-800:])
-    elif replay_kind == "race":
+    elif replay_kind in ("race", "obligations"):
         meta = {"kinds": []}
     else:
         rc, out = hres.get("rc", 1), hres.get("out", "")
